@@ -227,7 +227,15 @@ def do_fit(est, kind, data):
     return est.fit(data["X"], data["y"])
 
 
-def call_method(est, kind, m, data):
+def call_method(est, kind, m, data, minimal=False):
+    if kind == "forecaster" and minimal:
+        # the same calls with as few arguments as the signature allows
+        if m == "predict":
+            return est.predict()
+        if m == "update_predict_single":
+            return est.update_predict_single(data["y_new"])
+        if m == "score":
+            return est.score(data["y_new"].iloc[:2])
     if kind == "forecaster":
         if m == "predict":
             return est.predict(data["fh"])
@@ -459,6 +467,12 @@ def execute(prop, scen):
                     k_ = sorted(inner)[rng.randrange(len(inner))]
                     new = rng.choice(SMALL[k_])
                     new_list = [(p[0], clone(p[1])) + tuple(p[2:]) for p in parts]
+                    if rng.random() < 0.5:
+                        # the new list renames the component; the replacement and the nested
+                        # parameter refer to the NEW name (the list is documented to be set first)
+                        newname = pname + "new"
+                        new_list[idx] = (newname,) + tuple(new_list[idx][1:])
+                        pname = newname
                     new_obj = clone(pobj)
                     try:
                         est.set_params(**{"%s__%s" % (pname, k_): new, pname: new_obj, comp: new_list})
@@ -590,7 +604,22 @@ def check_not_fitted(v, res, est, kind, data, NotFittedError, cloned):
             continue
         try:
             call_method(est, kind, m, data)
+            if kind == "forecaster" and m in ("predict", "update_predict_single", "score"):
+                call_method(est, kind, m, data, minimal=True)
         except NotFittedError:
+            if kind == "forecaster" and m in ("predict", "update_predict_single", "score"):
+                try:
+                    call_method(est, kind, m, data, minimal=True)
+                except NotFittedError:
+                    continue
+                except Exception as e:  # noqa
+                    v("unfitted_wrong_error", "%s (called without a horizon) before fit raised %s (%s) "
+                      "instead of NotFittedError" % (m, type(e).__name__, str(e)[:80]), method=m,
+                      exc=type(e).__name__, cloned=cloned, minimal=True)
+                    return
+                v("unfitted_returned_result", "%s (called without a horizon) before fit returned a "
+                  "result" % m, method=m, cloned=cloned, minimal=True)
+                return
             continue
         except AttributeError as e:
             if "has no attribute '%s'" % m in str(e) or str(e) == m:
